@@ -232,9 +232,11 @@ breaks this obligation even when no regenerated *expression* changes. -/
 theorem code_structure_as_modelled :
     F3.Gen.SkelSim.skelSimValidateDecision = F3.SkelTie.SkelSim.skelSimValidateDecisionExpected ∧
     F3.Gen.SkelSim.skelSimHasReachedConsensus = F3.SkelTie.SkelSim.skelSimHasReachedConsensusExpected ∧
+    F3.Gen.SkelSim.skelCertchainValidate = F3.SkelTie.SkelSim.skelCertchainValidateExpected ∧
+    F3.Gen.SkelSim.skelCertchainGetCommittee = F3.SkelTie.SkelSim.skelCertchainGetCommitteeExpected ∧
     F3.Gen.SkelInputs.skelGetProposal = F3.SkelTie.SkelInputs.skelGetProposalExpected ∧
     F3.Gen.SkelInputs.skelPtCidForTipset = F3.SkelTie.SkelInputs.skelPtCidForTipsetExpected :=
-  ⟨F3.SkelTie.SkelSim.skelSimValidateDecision_expected, F3.SkelTie.SkelSim.skelSimHasReachedConsensus_expected, F3.SkelTie.SkelInputs.skelGetProposal_expected, F3.SkelTie.SkelInputs.skelPtCidForTipset_expected⟩
+  ⟨F3.SkelTie.SkelSim.skelSimValidateDecision_expected, F3.SkelTie.SkelSim.skelSimHasReachedConsensus_expected, F3.SkelTie.SkelSim.skelCertchainValidate_expected, F3.SkelTie.SkelSim.skelCertchainGetCommittee_expected, F3.SkelTie.SkelInputs.skelGetProposal_expected, F3.SkelTie.SkelInputs.skelPtCidForTipset_expected⟩
 
 end Skeletons
 end F3.Props.C19
